@@ -36,7 +36,8 @@ NewSess(e) == [proto |-> e.proto, tOpen |-> e.t, closed |-> FALSE, closeT |-> Of
                sent |-> <<>>, nrcv |-> 0, sub |-> <<>>, del |-> <<>>,
                created |-> <<>>, flushed |-> {}, cbReg |-> <<>>, cbRun |-> <<>>, lastFlush |-> <<>>, phase |-> "idle",
                causes |-> {}, pollOut |-> 0, dataOut |-> 0, closeAsked |-> Off, buffered |-> <<>>, closeSeen |-> FALSE, lastPost |-> <<>>, cset |-> {}, grace |-> Off, closeCalled |-> FALSE, parked |-> 0, may |-> {}, v3lossy |-> FALSE, sloppy |-> FALSE, nested |-> FALSE, inDispatch |-> FALSE, probeT |-> Off, coincide |-> FALSE,
-               accAtClose |-> {}, retd |-> {}, noopDue |-> Off, phaseUnk |-> FALSE, parkedRW |-> 0, hard |-> FALSE, closeReason |-> "", gracefulAsked |-> FALSE]
+               accAtClose |-> {}, retd |-> {}, noopDue |-> Off, phaseUnk |-> FALSE, parkedRW |-> 0, hard |-> FALSE, closeReason |-> "", gracefulAsked |-> FALSE,
+               closeRet |-> FALSE, idleDrain |-> Off, pollAfterIdle |-> FALSE, parkT |-> Off, idleVoid |-> FALSE]
 
 \* ---------------------------------------------------------------- common per-event checks for sock.* events
 \* lifecycle clauses that apply to every event sampled from a socket
@@ -181,7 +182,11 @@ Step ==
                  \o (IF s.phase = "flushed" /\ ids # s.lastFlush THEN <<V("C18", "server_flush_batch_differs", e.sid, [srv |-> ids, sock |-> s.lastFlush])>> ELSE <<>>)
             /\ UNCHANGED <<cfg, Rq, Cn>>
        [] e.e = "sock.drain" /\ known ->
-            /\ S' = Upd([s EXCEPT !.phase = "drained"])
+            \* C12: a drain after which nothing accepted is waiting any more, emitted after a graceful Close has returned (its "drain"
+            \* listener is registered): that Close goes on to close the transport from inside this event
+            /\ S' = Upd([s EXCEPT !.phase = "drained",
+                                  !.idleDrain = IF s.idleDrain = Off /\ s.gracefulAsked /\ s.closeRet /\ ~s.hard /\ ~s.closed /\ s.created = <<>> /\ s.parked = 0
+                                                /\ ~s.idleVoid THEN t ELSE s.idleDrain])
             /\ viol' = viol \o tv \o SockCommon(e, s)
                  \o (IF s.phase \notin {"srvflushed"} THEN <<V("C18", "drain_without_flush", e.sid, s.phase)>> ELSE <<>>)
             /\ UNCHANGED <<cfg, Rq, Cn>>
@@ -255,6 +260,11 @@ Step ==
                                  IF e.reason = "ping timeout" THEN "ping_timeout_at_wrong_time" ELSE "closed_without_cause",
                                  e.sid, [reason |-> e.reason, causes |-> s.causes, deadline |-> s.deadline, at |-> t])>> ELSE <<>>)
                     \o (IF e.rs # "closed" THEN <<V("C03", "close_event_with_state_not_closed", e.sid, e.rs)>> ELSE <<>>)
+                    \* C12: a graceful Close whose last packets have gone out closes the session ("forced close") as soon as the transport can
+                    \* carry the close - at once on a stream, with the client's next poll on polling - not at the next heartbeat deadline
+                    \o (IF e.reason = "ping timeout" /\ s.nclose = 0 /\ s.idleDrain # Off /\ s.idleDrain < t /\ ~s.hard /\ s.parked = 0
+                           /\ (s.tr # "polling" \/ s.pollAfterIdle)
+                        THEN <<V("C12", "graceful_close_stalled_after_drain", e.sid, [drained |-> s.idleDrain, closed |-> t])>> ELSE <<>>)
                     \o (IF e.count < 0 \/ e.count > 1000000 THEN <<V("C04", "client_count_underflow", e.sid, e.count)>> ELSE <<>>)
                /\ UNCHANGED <<cfg, Rq, Cn>>
        [] e.e = "app.close.call" /\ known ->
@@ -268,13 +278,21 @@ Step ==
                                   !.accAtClose = IF ~e.discard /\ e.rs = "open" /\ ~s.closed /\ ~s.gracefulAsked
                                                  THEN s.retd ELSE s.accAtClose])
             /\ viol' = viol \o tv /\ UNCHANGED <<cfg, Rq, Cn>>
+       [] e.e = "app.close.ret" /\ known ->
+            \* (a graceful Close that returns with nothing accepted waiting any more has closed the transport itself, or must not
+            \*  wait for a drain that has already been emitted)
+            /\ S' = Upd([s EXCEPT !.closeRet = s.gracefulAsked,
+                                  !.idleDrain = IF s.idleDrain = Off /\ s.gracefulAsked /\ ~s.hard /\ ~s.closed /\ s.created = <<>> /\ s.parked = 0
+                                                   /\ s.phase \in {"idle", "drained"}
+                                                /\ ~s.idleVoid THEN t ELSE s.idleDrain])
+            /\ viol' = viol \o tv /\ UNCHANGED <<cfg, Rq, Cn>>
        [] e.e = "app.srvclose.call" ->
             /\ S' = [x \in DOMAIN SS |-> [SS[x] EXCEPT !.causes = SS[x].causes \cup {"app"}, !.closeCalled = TRUE, !.hard = TRUE]]
             /\ viol' = viol \o tv /\ UNCHANGED <<cfg, Rq, Cn>>
        [] e.e = "app.srvclose.ret" ->
             /\ viol' = viol \o tv /\ UNCHANGED <<cfg, S, Rq, Cn>>
        [] e.e = "gate.park" /\ Has(SS, e.id) ->
-            /\ S' = Put(SS, e.id, [SS[e.id] EXCEPT !.parked = SS[e.id].parked + 1,
+            /\ S' = Put(SS, e.id, [SS[e.id] EXCEPT !.parked = SS[e.id].parked + 1, !.parkT = IF SS[e.id].parked = 0 THEN t ELSE SS[e.id].parkT,
                                                       !.parkedRW = IF e.point = "rw.write" THEN SS[e.id].parkedRW + 1 ELSE SS[e.id].parkedRW])
             /\ viol' = viol \o tv /\ UNCHANGED <<cfg, Rq, Cn>>
        [] e.e = "gate.release" /\ Has(SS, e.id) ->
@@ -282,7 +300,10 @@ Step ==
             LET s0 == SS[e.id]
                 n == IF s0.parked > 0 THEN s0.parked - 1 ELSE 0
                 rebase(x) == IF n = 0 /\ x # Off /\ x < t THEN Off ELSE x
-            IN /\ S' = Put(SS, e.id, [s0 EXCEPT !.parked = n, !.parkedRW = IF e.point = "rw.write" /\ s0.parkedRW > 0 THEN s0.parkedRW - 1 ELSE s0.parkedRW, !.pingDue = rebase(s0.pingDue), !.deadline = rebase(s0.deadline), !.closeAsked = rebase(s0.closeAsked), !.noopDue = rebase(s0.noopDue)])
+                \* a goroutine of the session was held at a gate while time passed (replay of a model behaviour with armed sleeps):
+                \* what the session then did not do in time proves nothing
+                held == s0.parkT # Off /\ t > s0.parkT
+            IN /\ S' = Put(SS, e.id, [s0 EXCEPT !.idleVoid = s0.idleVoid \/ held, !.idleDrain = IF held THEN Off ELSE s0.idleDrain, !.parked = n, !.parkedRW = IF e.point = "rw.write" /\ s0.parkedRW > 0 THEN s0.parkedRW - 1 ELSE s0.parkedRW, !.pingDue = rebase(s0.pingDue), !.deadline = rebase(s0.deadline), !.closeAsked = rebase(s0.closeAsked), !.noopDue = rebase(s0.noopDue)])
                /\ viol' = viol \o tv /\ UNCHANGED <<cfg, Rq, Cn>>
        [] e.e = "reent" /\ known ->
             \* a Send issued from inside the packetCreate listener of another Send completes before it: their relative
@@ -300,7 +321,7 @@ Step ==
                 overlap == live /\ ((e.kind = "poll" /\ s0.pollOut # 0) \/ (e.kind = "post" /\ s0.dataOut # 0))
                 ns == IF ~live THEN s0
                       ELSE IF overlap THEN [s0 EXCEPT !.causes = s0.causes \cup {"error"}]
-                      ELSE IF e.kind = "poll" THEN [s0 EXCEPT !.pollOut = e.rid,
+                      ELSE IF e.kind = "poll" THEN [s0 EXCEPT !.pollOut = e.rid, !.pollAfterIdle = s0.pollAfterIdle \/ (s0.idleDrain # Off /\ s0.parked = 0),
                                                                 !.noopDue = IF ProbedCand(sid) /\ s0.tr = "polling" /\ ~s0.closed THEN t + 100000 ELSE Off]
                       ELSE IF e.kind = "post" THEN [s0 EXCEPT !.dataOut = e.rid] ELSE s0
                 partner == IF ~overlap THEN 0 ELSE IF e.kind = "poll" THEN s0.pollOut ELSE s0.dataOut
